@@ -234,6 +234,8 @@ pub fn pe(e: &E, ind: usize) -> String {
             o
         }
         E::Lambda(ps_, b) => format!("|{}| {}", if ps_.is_empty() { " ".to_string() } else { ps_.join(",") }, pa(b, ind)),
+        // a one-element tuple needs its trailing comma
+        E::Tuple(es) if es.len() == 1 => format!("({},)", pe(&es[0], ind)),
         E::Tuple(es) => format!("({})", es.iter().map(|a| pe(a, ind)).collect::<Vec<_>>().join(", ")),
         E::Proj(a, i) => format!("{}.{i}", pa(a, ind)),
         E::Array(es) => format!("[{}]", es.iter().map(|a| pe(a, ind)).collect::<Vec<_>>().join(", ")),
